@@ -263,6 +263,20 @@ func c05Exec(c *mc.Ctx, v interface{}) {
 	c.Sample(cs.CaseKey())
 	key := cs.CaseKey()
 	in := fmt.Sprintf("%s (%d bytes) %s", cs.op, len(cs.input), hx(cs.input))
+	// history: whatever this input made the reader do (refuse half-way, accept), the unmodified base
+	// bundle read right afterwards must still yield exactly its content
+	defer func() {
+		after := c05DoRead(cs.base.file)
+		c.Transitions(1)
+		d := "refused: " + after.err + after.panic
+		if after.ok {
+			d = c05Compare(cs.base.ref, after.b)
+		}
+		if d != "" && !strings.HasPrefix(d, "skip:") {
+			c.Outcome("BASE READ WRONG AFTER THIS INPUT")
+			c.Fail(key+":then-base", "the unmodified base bundle, read right after this input, does not yield its content", "first "+in+"; then the base bundle "+cs.base.name, "base exchanges", d)
+		}
+	}()
 	if got.panic != "" {
 		c.Outcome("PANIC")
 		c.Fail(key, "bundle reader panicked", in, "value or error", "panic: "+got.panic)
